@@ -1,12 +1,13 @@
 import FimVerif.Drivers.Proto
 import FimVerif.Model.GraphML
+import FimVerif.Model.Serial
 /-! Line-protocol driver for C01: executes `FimVerif.GraphML` on a store loaded from the harness.
 
 Wire forms: `Val` = `["s",str] | ["i",int] | ["b",bool] | ["f",repr] | ["o",desc]`; attrs = `[[k,Val]…]`;
 GraphML doc = `{"fmt":"graphml","keys":[[id,name,scope,type]…],"nodes":[[id,labels|null,[[key,text]…]]…],
 "edges":[[src,tgt,label|null,[[key,text]…]]…]}` (text rendered / parsed here: `str(v)`, `int(text)` … are CPython);
 JSON doc = `{"fmt":"json","directed":b,"multigraph":b,"nodes":[[[k,JV]…]…],"edges":[…]}`, `JV` = Val | `["k",id]`. -/
-open Lean FimVerif.Proto FimVerif.GraphML
+open Lean FimVerif.Proto FimVerif.GraphML FimVerif.Serial FimVerif.SerialSpec
 
 namespace FimVerif.C01Driver
 
@@ -275,7 +276,8 @@ def step (s : Store) (j : Json) : Store × Json :=
       | .ok (some d) => (s, ok (docToJson d))
       | .error e => (s, err e)
   | .arr #[.str "validate", g, names, oks] =>
-    match valOfJson g, getStrs names, getStrs oks with
+    -- `names` = null: the JSON property names the translator read from the repo
+    match valOfJson g, (if names.isNull then some FimVerif.Gen.Serial.jsonPropertyNames else getStrs names), getStrs oks with
     | some g', some ns, some os =>
       match validate ns (fun t => os.contains t) s g' with
       | .ok _ => (s, ok Json.null)
@@ -305,10 +307,108 @@ def step (s : Store) (j : Json) : Store × Json :=
       | some (.error e, s') => (s', err e)
   | _ => (s, err "bad-request")
 
+/-! Topology-level requests (both flavours; `flav` = "s" shared | "d" disjoint):
+`["tload", flav, kind, held, shape, doc, newId]` → `[result, heldAfter]` (`kind` = "topology" | "advertized" picks the
+generated load plan, `shape` = "file" | "string" | "string_new"), `["tctor", flav, kind, fresh, shape, doc]`,
+`["tclone", flav, g, newId]`, `["tabcclone", flav, g, newId]`, `["tdelete", flav, g]`. -/
+
+def specOf (kind : String) : Option (LoadSpec × Bool) :=
+  if kind == "topology" then some (FimVerif.Gen.Serial.topologyLoad, FimVerif.Gen.Serial.topologyCtorLoads)
+  else if kind == "advertized" then some (FimVerif.Gen.Serial.advertizedLoad, FimVerif.Gen.Serial.advertizedCtorLoads)
+  else none
+
+def shapeOf (s : String) : Option Shape :=
+  if s == "file" then some .file else if s == "string" then some .string
+  else if s == "string_new" then some .stringNewId else none
+
+def resToJson : Except String Val → Json
+  | .ok g => ok (valToJson g)
+  | .error e => err e
+
+def unitToJson : Except String Unit → Json
+  | .ok _ => ok Json.null
+  | .error e => err e
+
+def gdocStrToJson (d : GDoc String) : Json :=
+  Json.mkObj [
+    ("fmt", Json.str "graphml"),
+    ("keys", Json.arr (d.keys.map fun k => Json.arr #[Json.num (JsonNumber.fromNat k.id), Json.str k.spec.name,
+        Json.str (scopeName k.spec.scope), Json.str (ktyName k.spec.ty)]).toArray),
+    ("nodes", Json.arr (d.nodes.map fun n => Json.arr #[Json.str n.id, optStr n.labels, dataToJson n.data]).toArray),
+    ("edges", Json.arr (d.edges.map fun e => Json.arr #[Json.str e.source, Json.str e.target,
+        optStr e.label, dataToJson e.data]).toArray)]
+
+def tstep (st : Store × DStore) (j : Json) : Option ((Store × DStore) × Json) :=
+  match j with
+  | .arr #[.str "enumerate", d, .bool toFile] =>
+    match parseDoc d with
+    | some (.graphml d') =>
+      match enumerateDoc d' toFile with
+      | .ok r => some (st, ok (gdocStrToJson r))
+      | .error e => some (st, err e)
+    | _ => some (st, err "bad-args")
+  | .arr #[.str "tload", .str flav, .str kind, held, .str shape, d, newId] =>
+    match specOf kind, valOfJson held, shapeOf shape, parseDoc d, valOfJson newId with
+    | some (sp, _), some h, some sh, some d', some nid =>
+      if flav == "d" then
+        let (r, s', h') := load disjointOps sp st.2 h sh d' nid
+        some ((st.1, s'), ok (Json.arr #[resToJson r, valToJson h']))
+      else
+        let (r, s', h') := load sharedOps sp st.1 h sh d' nid
+        some ((s', st.2), ok (Json.arr #[resToJson r, valToJson h']))
+    | _, _, _, _, _ => some (st, err "bad-args")
+  | .arr #[.str "tctor", .str flav, .str kind, fresh, .str shape, d] =>
+    match specOf kind, valOfJson fresh, shapeOf shape, parseDoc d with
+    | some (sp, cl), some fr, some sh, some d' =>
+      if flav == "d" then
+        let (r, s') := construct disjointOps sp cl st.2 fr sh d'
+        some ((st.1, s'), resToJson r)
+      else
+        let (r, s') := construct sharedOps sp cl st.1 fr sh d'
+        some ((s', st.2), resToJson r)
+    | _, _, _, _ => some (st, err "bad-args")
+  | .arr #[.str "tserializefile", g, .str f] =>
+    match valOfJson g with
+    | none => some (st, err "bad-args")
+    | some g' =>
+      match serializeToFile st.1 g' (if f == "json" then .json else .graphml) with
+      | .ok d => some (st, ok (docToJson d))
+      | .error e => some (st, err e)
+  | .arr #[.str "tclone", .str flav, g, newId] =>
+    match valOfJson g, valOfJson newId with
+    | some g', some nid =>
+      if flav == "d" then
+        let (r, s') := dCloneGraph st.2 g' nid
+        some ((st.1, s'), unitToJson r)
+      else
+        let (r, s') := cloneGraph st.1 g' nid
+        some ((s', st.2), unitToJson r)
+    | _, _ => some (st, err "bad-args")
+  | .arr #[.str "tabcclone", .str flav, g, newId] =>
+    match valOfJson g, valOfJson newId with
+    | some g', some nid =>
+      if flav == "d" then
+        let (r, s') := dAbcCloneGraph st.2 g' nid
+        some ((st.1, s'), resToJson r)
+      else
+        let (r, s') := abcCloneGraph st.1 g' nid
+        some ((s', st.2), resToJson r)
+    | _, _ => some (st, err "bad-args")
+  | .arr #[.str "tdelete", .str flav, g] =>
+    match valOfJson g with
+    | some g' =>
+      if flav == "d" then some ((st.1, dDelGraph st.2 g'), ok Json.null)
+      else some ((st.1.delGraph g', st.2), ok Json.null)
+    | none => some (st, err "bad-args")
+  | _ => none
+
 end FimVerif.C01Driver
 
 def main : IO Unit := runState (FimVerif.GraphML.Store.empty, FimVerif.GraphML.DStore.empty)
   (fun st j =>
+    match FimVerif.C01Driver.tstep st j with
+    | some r => r
+    | none =>
     match FimVerif.C01Driver.dstep st.2 j with
     | some (d', r) => ((st.1, d'), r)
     | none => let (s', r) := FimVerif.C01Driver.step st.1 j; ((s', st.2), r))
